@@ -72,6 +72,9 @@ func IndexStartOptimize(pipe []*gripql.GraphStatement) []*gripql.GraphStatement 
 		if has, ok := pipe[idx].GetStatement().(*gripql.GraphStatement_HasId); ok {
 			ids = append(ids, protoutil.AsStringList(has.HasId)...)
 		}
+		// a filter keeps an element once however often its id is listed; a lookup list would
+		// return it once per occurrence
+		ids = dedupStringSlice(ids)
 		if len(ids) > 0 {
 			idOpt = true
 			hIdx := &gripql.GraphStatement_V{V: protoutil.NewListFromStrings(ids)}
@@ -89,6 +92,7 @@ func IndexStartOptimize(pipe []*gripql.GraphStatement) []*gripql.GraphStatement 
 		if has, ok := pipe[idx].GetStatement().(*gripql.GraphStatement_HasLabel); ok {
 			labels = append(labels, protoutil.AsStringList(has.HasLabel)...)
 		}
+		labels = dedupStringSlice(labels)
 		if len(labels) > 0 {
 			labelOpt = true
 			hIdx := &gripql.GraphStatement_LookupVertsIndex{Labels: labels}
